@@ -32,8 +32,8 @@ META = {
     'C01': dict(engine='verus+kani', design_ref='0, 3.5, 6', technique='contract-based deductive verification: Verus panic-freedom/termination obligations on the real functions; Kani function proofs on the i64 leaves and builtin dispatch',
                 text='Panic-freedom and termination are obligations of every exec function Verus verifies (unwrap, unreachable!, indexing, str slicing, integer overflow are failed preconditions): operator evaluation, both evaluators and all wrappers, the tree builder (stack-shape invariant discharges both unreachable!()s), both tokenizer stages, the contexts, the explicit builtins, NodeIter. i64 leaves and macro-generated builtins by loop-free Kani harnesses over all payloads. Unbounded for the functions under contract.',
                 note=_TB + ' Not decided: Display/Debug formatting, stack depth, the identifier-filter closures, OperatorIterMut, IterateVariablesContext impls.'),
-    'C02': dict(engine='verus', design_ref='0, 4', technique='contract-based deductive verification (Verus): table contracts, insertion contract ins_ok/ins_post, token-mapping obligation, yield lemma',
-                text='Precedence/arity/associativity and token-class tables proved equal to the documented table; insert_back_prioritized proved to place each node exactly where precedence climbing puts it (free slot / rotation / descent by binds_into); the node created for each token proved to be op_of(token, previous-token-can-end-an-operand, next token); spec-level theorem: a successful insertion extends the in-order yield on the right.',
+    'C02': dict(engine='verus', design_ref='0, 4', technique='contract-based deductive verification (Verus): table contracts, insertion contract ins_ok/ins_post, token-mapping obligation, yield lemma, token conservation',
+                text='Precedence/arity/associativity and token-class tables proved equal to the documented table; insert_back_prioritized proved to place each node exactly where precedence climbing puts it (free slot / rotation / descent by binds_into); the node created for each token proved to be op_of(token, previous-token-can-end-an-operand, next token); spec-level theorem: a successful insertion extends the in-order yield on the right; token conservation: the tree accounts for every token other than a parenthesis exactly once (w_node(tree) == ntok(tokens)).',
                 note=_TB + ' The whole-grammar uniqueness theorem (one tree per token sequence) is not mechanised; the per-step contracts are.'),
     'C03': dict(engine='verus+kani', design_ref='0, 3.4', technique='contract-based deductive verification (Verus postcondition = reference semantics op_spec; Kani proves the integer contracts for i64)',
                 text='Operator::eval proved to return exactly op_spec (written from the property text; one ensures clause per operator) for every argument list; the integer contracts assumed on the abstract instance are proved for i64 by Kani over all 2^128 operand pairs.',
@@ -41,8 +41,8 @@ META = {
     'C04': dict(engine='verus', design_ref='0, 4', technique='contract-based deductive verification (Verus abstract-map refinement, whole-view postconditions)',
                 text='Every HashMapContext operation proved to refine an abstract map view with whole-view postconditions (set_spec: type-safe insert or unchanged); eval_mut proved against opmut_spec (x op= e is x = x op e, read after the right-hand side); both evaluators thread the map.',
                 note=_TB + ' HashMap get/insert/get_mut/clear specs assumed; derive(Clone) independence (ownership) and iter_variables not in reach.'),
-    'C05': dict(engine='verus', design_ref='0, 4', technique='contract-based deductive verification (Verus): evaluation arms + level-grammar stack invariant',
-                text='Tuple/Chain/RootNode arms proved against op_spec; the evaluators evaluate every element in order; the stack of open nodes is proved to follow the level grammar Root (Chain)? (Tuple)? with the last child of an open sequence being the root of the element being parsed.',
+    'C05': dict(engine='verus', design_ref='0, 4', technique='contract-based deductive verification (Verus): evaluation arms + level-grammar stack invariant + token conservation',
+                text='Tuple/Chain/RootNode arms proved against op_spec; the evaluators evaluate every element in order; the stack of open nodes is proved to follow the level grammar Root (Chain)? (Tuple)? with the last child of an open sequence being the root of the element being parsed, an open sequence holding at least two elements, and (token conservation, through the builder loop and both collapse functions) every separator standing for exactly one more element of its sequence: w_node(tree) == number of non-parenthesis tokens.',
                 note=_TB + ' The closed-form shape theorem (flat tuple of all elements for every input) is not mechanised.'),
     'C06': dict(engine='verus', design_ref='0, 4', technique='contract-based deductive verification (Verus, unbounded): lexer stages against lex2 / split / str_lit',
                 text='partial_tokens_to_tokens proved equal to the documented lexical rule lex2 for all inputs (int, float, bool, scientific join, identifier; longest match); parse_string_literal/parse_escape_sequence proved against str_lit; parse_dec_or_hex proved to choose hex after 0x; tokenize = lex2 after split.',
@@ -65,8 +65,8 @@ META = {
     'C12': dict(engine='verus', design_ref='0, 4', technique='contract-based deductive verification (Verus projection contracts on all 45 entry points, generated)',
                 text='Each typed entry point proved to return the projection of an admissible untyped result (payload / matching expected-type error carrying the value / errors unchanged / number converts ints); context-free forms evaluate in a fresh HashMapContext; string forms are tokenize ; build ; evaluate.',
                 note=_TB + ' Equality of repeated evaluations holds up to type-error identity (norm).'),
-    'C13': dict(engine='verus', design_ref='0, 4', technique='contract-based deductive verification (Verus): insertion contract, parenthesis accounting, arity contract',
-                text='tokens_to_operator_tree proved: Ok implies balanced parentheses, UnmatchedLBrace/UnmatchedRBrace imply unbalanced (one root node on the stack per open level); insert_back_prioritized succeeds exactly when ins_ok (a free operand slot never takes a binary operator, only a binary operator adopts the preceding operand); Operator::eval rejects wrong arity.',
+    'C13': dict(engine='verus', design_ref='0, 4', technique='contract-based deductive verification (Verus): insertion contract, parenthesis accounting, token conservation, arity contract',
+                text='tokens_to_operator_tree proved: Ok implies balanced parentheses, UnmatchedLBrace/UnmatchedRBrace imply unbalanced (one root node on the stack per open level); insert_back_prioritized succeeds exactly when ins_ok (a free operand slot never takes a binary operator, only a binary operator adopts the preceding operand); no token is dropped or duplicated by the builder (token conservation); Operator::eval rejects wrong arity.',
                 note=_TB),
     'C14': dict(engine='verus', design_ref='0, 4', technique='contract-based deductive verification (Verus): abstract-view contract on NodeIter and on the mutability-erased OperatorIterMut, classification contracts on the ten filter closures',
                 text='NodeIter::new / next and the mutability-erased copy of OperatorIterMut (X20) proved to yield exactly the remaining pre-order of the children (abstract view over the stack of slice iterators); the ten filter_map closure bodies of Node::iter_*identifiers*(_mut) (X19) proved to keep exactly the documented classes (assignment target / read variable / applied function) and to yield the occurrence name.',
